@@ -76,7 +76,7 @@ def run_demo(pid, n, release):
     """-> (passes, transcript)"""
     d = SRC % pid
     prof = "--release" if release else ""
-    prefer_rs = os.path.exists("%s/demo%d.rs" % (d, n)) and (os.path.exists("%s/run_demo.sh" % d) or ROUND in ("3", "4", "5"))
+    prefer_rs = os.path.exists("%s/demo%d.rs" % (d, n)) and (os.path.exists("%s/run_demo.sh" % d) or ROUND in ("3", "4", "5", "6"))
     if os.path.exists("%s/demo%d.yl" % (d, n)) and not prefer_rs:
         limit = ""
         if os.path.exists("%s/demo%d.sh" % (d, n)):
@@ -138,6 +138,9 @@ def main():
     results = {}
     for pid, n in cands:
         key = seeded_id(pid, n)
+        if ROUND == "6":
+            # round 6 was assigned by subsystem (directories A..F); the kept change is filed under the property it breaks
+            key = "%s-r6-%s%d" % (json.load(open((SRC % pid) + "/meta%d.json" % n))["property"], pid, n)
         patch = (SRC % pid) + "/patch%d.diff" % n
         adapted = "/tmp/adapted/%sr%s-%d.diff" % (pid, ROUND, n)
         if os.path.exists(adapted):
@@ -174,7 +177,7 @@ def main():
                     shutil.copytree(f, os.path.join(dst, os.path.basename(f)), dirs_exist_ok=True)
                 else:
                     shutil.copy(f, dst)
-            m = {"property": pid, "title": meta.get("title"), "breaks": meta.get("what_it_breaks"),
+            m = {"property": meta.get("property", pid), "title": meta.get("title"), "breaks": meta.get("what_it_breaks"),
                  "needs_to_manifest": meta.get("needs_to_manifest"), "files_touched": meta.get("files_touched"),
                  "build_config": meta.get("build_config"), "round": int(ROUND), "patch_adapted_by_hand": os.path.exists(adapted),
                  "origin": "independent sub-agent given only the property record and a scratch worktree",
